@@ -207,3 +207,16 @@ Example c03_wrong_branch_not_identity :
   let v := of_lit 53 1024 p64 m64 11 (-3) in
   fdiv 53 1024 p64 m64 (fmul 53 1024 p64 m64 v k) k <> v.
 Proof. intros k v H. apply (f_equal (@B2SF _ _)) in H. vm_compute in H. discriminate. Qed.
+
+(* ---- the model functions ARE the source: Gen/ConvSrc.v is regenerated from src/system.rs on every run ---- *)
+From UomV Require Import Model.ConvSrc Gen.ConvSrc Spec.ConvTie.
+Theorem c03_to_base_is_the_source :
+  conv_shape_ok src_to_base ConsAdd = true
+  /\ forall (T : Type) (F : CF T) U d coef cons v,
+       eval_conv F src_to_base (base_factor F U d) coef cons v = Some (to_base F U d coef cons v).
+Proof. exact to_base_is_the_source. Qed.
+Theorem c03_from_base_is_the_source :
+  conv_shape_ok src_from_base ConsSub = true
+  /\ forall (T : Type) (F : CF T) U d coef cons v,
+       eval_conv F src_from_base (base_factor F U d) coef cons v = Some (from_base F U d coef cons v).
+Proof. exact from_base_is_the_source. Qed.
